@@ -301,6 +301,18 @@ func runC11(c *vk.Ctx) {
 					}
 				}
 				bk.Cleanup()
+				if j == 0 && b == 0 && backend == "fs" {
+					var w, u []string
+					for i, a := range addrs {
+						if written[i] && len(w) < 4 {
+							w = append(w, a.String())
+						}
+						if !written[i] && (i>>uint(j))&1 != b && len(u) < 4 {
+							u = append(u, a.String())
+						}
+					}
+					c.Sample(map[string]interface{}{"round": key, "written_with_unique_values": nw, "then_read": n, "examples_written": w, "examples_read_but_never_written": u, "hits_in_this_round": hits})
+				}
 				// every (written, unwritten) ordered pair of this round was covered
 				c.EvalN(int64(nw)*int64(n-nw), int64(nw)*int64(n-nw))
 				c.Count("rounds", 1)
@@ -308,6 +320,6 @@ func runC11(c *vk.Ctx) {
 			}
 		}
 	}
-	c.Sample(map[string]interface{}{"addresses": n, "rounds_per_backend": 2 * bits, "example_addresses": []string{addrs[0].String(), addrs[n/2].String(), addrs[n-1].String()}})
+	c.Count("max_addresses", int64(n))
 	c.SetExhaustive(true)
 }
